@@ -68,7 +68,7 @@ def install(classes, hooks):
         self.name = name
 
     def rep(self):
-        return "<%s>" % (self.name,)
+        return "<%s 100%% %%s>" % (self.name,)
 
     for arch in ARCHETYPES:
         d = dict(hooks)
